@@ -126,6 +126,29 @@ def is_finish(ev: Event, slots: Slots) -> bool:
     return False
 
 
+def is_absent(ev: Event, slots: Slots) -> bool:
+    """The path established that the stream-table entry is not there (`sid in table` evaluated False)."""
+    if ev.kind == 'cond' and ev.data.get('value') is False:
+        k = ev.data['key']
+        if k and k[0] == 'in' and isinstance(k[2], tuple) and len(k[2]) > 2 and k[2][0] == 'attr' and \
+                k[2][2] == slots.stream_table_attr:
+            return True
+    return False
+
+
+def is_gone(ev: Event, slots: Slots) -> bool:
+    return is_finish(ev, slots) or is_absent(ev, slots)
+
+
+def gone_key(ev: Event, slots: Slots):
+    """Term of the table key that is removed / known absent at this event (None when not such an event)."""
+    if is_finish(ev, slots):
+        return ev.data['args'][0].term if ev.data.get('args') else ('?',)
+    if is_absent(ev, slots):
+        return ev.data['key'][1]
+    return None
+
+
 def is_cache_remove(ev: Event, slots: Slots) -> bool:
     if ev.kind == 'call' and ev.data.get('name') in ('pop', '__delitem__') and \
             recv_attr(ev) == slots.cache_table_attr and ev.func is not None and ev.func.cls is not None and \
